@@ -72,6 +72,20 @@ Theorem C13_known_unchanged : forall S p k T tv,
 Proof. exact keep_known_unchanged. Qed.
 Print Assumptions C13_known_unchanged.
 
+(* unions_single is exact: for a keeping union whose only field is a variant the reader does not know the two builds
+   differ in the OUTCOME (keep: `_UnknownFields`, re-emitted on encode; plain: "received empty union") -- the purpose of
+   the `_UnknownFields` variant; no known field is involved.  Replayed on the emitted code:
+   `dec keep uni.Un binary sync 0f000403000000010100` -> `ok _UnknownFields(..)`, `dec plain ...` -> `err invalid_data`. *)
+Theorem C13_known_unchanged_unknown_variant_refuted :
+  exists S p k T tv ss,
+    wf_schema S = true /\ arg_free S T tv = true /\ wt tv = true /\ ttype_of tv = ttype_of_ty S T /\
+    evo_dom S T tv = true /\ no_retyped_variant S T tv = true /\ unions_single S T tv = false /\
+    write_val p k tv w0 = Ok (ss, w0) /\
+    gen_decode_keep S p 40 T (mkS (flat ss) r0) = Ok (GUnionUnknown [x0f; x00; x04; x03; x00; x00; x00; x01; x01], mkS [] r0) /\
+    gen_decode S p 40 T (mkS (flat ss) r0) = Err EInvalidData.
+Proof. exact keep_unknown_variant_refuted. Qed.
+Print Assumptions C13_known_unchanged_unknown_variant_refuted.
+
 (* the specifications themselves: the keep view without its chunks is the plain view *)
 Theorem C13_view_strip : forall S p k c v t, wf_schema S = true ->
   no_retyped_variant S t v = true -> unions_single S t v = true ->
